@@ -158,3 +158,37 @@ func WaitGone(patterns, exclude []string, ignore map[int64]bool, budget, settle 
 		}
 	}
 }
+
+// Persisting watches goroutines that were still matching but not in a stable blocked state: it
+// polls until none of them exists any more (returns nil) or `window` has passed, and then returns
+// those that existed at EVERY poll and still match the patterns - goroutines that keep running
+// (spinning, or cycling through short waits) long after the work they were started for has ended.
+func Persisting(gs []G, patterns, exclude []string, window, every time.Duration) []G {
+	alive := map[int64]bool{}
+	for _, g := range gs {
+		alive[g.ID] = true
+	}
+	var last []G
+	deadline := time.Now().Add(window)
+	for {
+		cur := map[int64]G{}
+		for _, g := range Match(All(), patterns, exclude) {
+			cur[g.ID] = g
+		}
+		last = last[:0]
+		for id := range alive {
+			if g, ok := cur[id]; ok {
+				last = append(last, g)
+			} else {
+				delete(alive, id)
+			}
+		}
+		if len(alive) == 0 {
+			return nil
+		}
+		if time.Now().After(deadline) {
+			return last
+		}
+		time.Sleep(every)
+	}
+}
